@@ -6,11 +6,17 @@ CHECK = {
     "level_text": "Every thread schedule with at most 1 deviation from the default schedule (2 on selected configurations; "
                   "thorough: more threads/ownership variants and bound 2 on six configurations) of the real "
                   "TaskBasedIonizationSimulation::run photon loop (and of the duplicated loop inside "
-                  "TaskBasedRadiationHydrodynamicsSimulation::do_simulation, radiation on, 2 iterations per hydro step) is executed on 15 tiny configurations (layouts, periodicity, "
-                  "point/boundary/external sources, diffuse re-emission, copy level, 1-2 iterations, 5-10 packets, buffer size 3). "
+                  "TaskBasedRadiationHydrodynamicsSimulation::do_simulation, radiation on, 2 iterations per hydro step) is executed on 20 tiny configurations (layouts, periodicity, "
+                  "point/boundary/external sources, diffuse re-emission, copy level, 1-2 iterations, 3-12 packets, buffer size 3, "
+                  "continuous-source batches that exactly fill a buffer, tight buffer pools with scheduling points after every "
+                  "modifying atomic operation). On the minimal continuous-source configuration a state-pruned search (a state is "
+                  "not expanded again when it was reached before with at least as many deviations left; state = every atomic "
+                  "variable, queues, tasks, buffers incl. packets, subgrid fields) goes to deviation bound 3 (quick) / 5 (thorough, "
+                  "about 5e5 executions); it is reported as state-pruned. The exhaustive enumeration of all integer splits of the "
+                  "packets over the sources (DistributedPhotonSource) is a separate part. "
                   "A ledger fed by hooks checks on every execution that each launched packet terminates exactly once, "
-                  "requested = terminated = done counter, per-task accounting matches, and that no buffer, task, queue entry, "
-                  "subgrid or continuous buffer is left behind; deadlock, livelock and horizon overruns are violations. "
+                  "requested = terminated = done counter, per-task accounting matches, that a subgrid is traversed by one task at a time, "
+                  "and that no buffer, task, queue entry, subgrid or continuous buffer is left behind; deadlock, livelock and horizon overruns are violations. "
                   "Lost/duplicated packets and stale tasks are ordering bugs between threads: bounded-exhaustive schedule "
                   "enumeration on the real code is the level that can reach them.",
     "level_note": "Code between two hooked synchronisation points (every AtomicValue/ThreadLock operation, LockFree::add, the "
